@@ -227,7 +227,6 @@ Section Guards.
     v_init v && negb (v_mixed v) && negb (v_any_type v) && negb (v_nillable v)
     && match v_elements v with [] => true | _ => false end
     && match v_wildcards v with [] => true | _ => false end
-    && match v_wrapper_qname v with None => true | Some _ => false end
     && match v_sequence v with None => true | Some _ => false end
     && negb (v_index v =? 0).
 
@@ -245,8 +244,10 @@ Section Guards.
 
   Definition reserved_name (q : qname) : bool := str_eqb q XSI_NIL || str_eqb q XSI_TYPE.
 
+  Definition no_wrapper (v : xvar) : bool := match v_wrapper_qname v with None => true | Some _ => false end.
+
   Definition wf_attr (v : xvar) : bool :=
-    v_is KAttribute v && var_common v
+    v_is KAttribute v && var_common v && no_wrapper v
     && match v_clazz v with None => true | Some _ => false end
     && match v_factory v with None => true | Some _ => false end
     && negb (reserved_name (v_qname v))
@@ -261,7 +262,7 @@ Section Guards.
        end.
 
   Definition wf_text (v : xvar) : bool :=
-    v_is KText v && var_common v
+    v_is KText v && var_common v && no_wrapper v
     && match v_clazz v with None => true | Some _ => false end
     && match v_factory v with None => true | Some _ => false end
     && match var_type v with
@@ -274,8 +275,17 @@ Section Guards.
        | None => false
        end.
 
+  (* wrapper: documented for plain (non token) list elements *)
+  Definition wrapper_ok (v : xvar) : bool :=
+    match v_wrapper_qname v with
+    | None => true
+    | Some w => nonempty_s w
+                && match v_factory v with Some _ => true | None => false end
+                && match v_tokens_factory v with None => true | Some _ => false end
+    end.
+
   Definition wf_elem (v : xvar) : bool :=
-    v_is KElement v && var_common v && nonempty_s (v_qname v)
+    v_is KElement v && var_common v && nonempty_s (v_qname v) && wrapper_ok v
     && match var_type v with
        | Some (TClass k) =>
            opt_eqb N.eqb (v_clazz v) (Some k)
@@ -303,7 +313,12 @@ Section Guards.
     match m_choices m with [] => true | _ => false end
     && match m_wildcards m with [] => true | _ => false end
     && match m_any_attributes m with [] => true | _ => false end
-    && match m_wrappers m with [] => true | _ => false end
+    (* the wrapper table knows every wrapper element, and no element field is named like a wrapper *)
+    && forallb (fun e => negb (match assoc (fst e) (m_wrappers m) with Some _ => true | None => false end)
+                         && forallb (fun v => match v_wrapper_qname v with
+                                              | Some w => match assoc w (m_wrappers m) with Some _ => true | None => false end
+                                              | None => true
+                                              end) (snd e)) (m_elements m)
     && negb (m_nillable m) && negb (m_mixed_content m)
     (* the element table: one field per name (qnames of element fields pairwise distinct) *)
     && forallb (fun e => match snd e with [v] => str_eqb (v_qname v) (fst e) && wf_elem v | _ => false end) (m_elements m)
